@@ -217,6 +217,9 @@ func reference(start, rto time.Duration, werr, raceK int, evs []hEv) prediction 
 
 var (
 	srvAddr = &net.UDPAddr{IP: net.IPv4(10, 0, 0, 1).To4(), Port: 3478}
+	// cfgAddr: the server address in the client's configuration; the transactions of the harness go to srvAddr
+	// (a STUN server apart from the TURN server, SendBindingRequestTo): each transmission goes where its own transaction says
+	cfgAddr = &net.UDPAddr{IP: net.IPv4(10, 0, 0, 9).To4(), Port: 3478}
 	cliAddr = &net.UDPAddr{IP: net.IPv4(10, 0, 0, 2).To4(), Port: 4000}
 	othAddr = &net.UDPAddr{IP: net.IPv4(10, 0, 0, 9).To4(), Port: 3478}
 
@@ -237,6 +240,10 @@ type world struct {
 	t0  time.Time
 	mu  sync.Mutex
 	arr []arrival
+	// stray: datagrams that arrived at the address the client is CONFIGURED with as its STUN/TURN server. Every
+	// transaction of this harness names its own destination (srvAddr); none of its transmissions belongs there.
+	os    *simnet.UDPSock
+	stray []arrival
 	// closed is set once the harness has called Client.Close.
 	closed bool
 	viols  []viol
@@ -258,9 +265,24 @@ func newWorld(rto time.Duration) (*world, error) {
 	if w.cs, err = w.net.ListenUDP("udp4", cliAddr); err != nil {
 		return nil, err
 	}
+	if w.os, err = w.net.ListenUDP("udp4", cfgAddr); err != nil {
+		return nil, err
+	}
+	go func() {
+		buf := make([]byte, 2048)
+		for {
+			n, from, err := w.os.ReadFrom(buf)
+			if err != nil {
+				return
+			}
+			w.mu.Lock()
+			w.stray = append(w.stray, arrival{at: time.Since(w.t0), data: append([]byte(nil), buf[:n]...), src: from.String()})
+			w.mu.Unlock()
+		}
+	}()
 	w.cl, err = turn.NewClient(&turn.ClientConfig{
-		STUNServerAddr: srvAddr.String(),
-		TURNServerAddr: srvAddr.String(),
+		STUNServerAddr: cfgAddr.String(),
+		TURNServerAddr: cfgAddr.String(),
 		RTO:            rto,
 		Conn:           w.cs,
 		Net:            w.net.Transport(),
@@ -587,6 +609,12 @@ func (w *world) checkTx(tr *txrun, tag string, pred prediction, arr []arrival) o
 // The returned state is "" (fine), "wedged", "exited", "exited+wedged" or "other".
 func (w *world) postCheck(finished []*txrun, causeWedged, causeExited string) (state string) {
 	w.cs.WriteErr, w.cs.WriteErrOnce = nil, false
+	w.mu.Lock()
+	if len(w.stray) > 0 {
+		w.viols = append(w.viols, viol{"transmission-sent-to-another-destination-than-its-transaction's",
+			fmt.Sprintf("%d datagram(s) arrived at the client's configured server %v, first at %v; every transaction was addressed to %v", len(w.stray), cfgAddr, w.stray[0].at, srvAddr)})
+	}
+	w.mu.Unlock()
 	at := w.now()
 	size := tableSize(w.cl)
 	for _, tr := range finished {
@@ -648,6 +676,7 @@ func (w *world) postCheck(finished []*txrun, causeWedged, causeExited string) (s
 	}
 	_ = w.cs.Close()
 	_ = w.ss.Close()
+	_ = w.os.Close()
 	synctest.Wait()
 
 	return state
